@@ -4,6 +4,7 @@ Inline tokenizer for mistletoe.
 
 import html
 import re
+from html.entities import html5 as html5_entities
 
 
 # replacement for html._charref which matches only entitydefs ending with ';',
@@ -17,14 +18,20 @@ _stdlib_charref = html._charref
 def unescape(string):
     """
     Like `html.unescape()`, but only for the character references of the
-    CommonMark spec (the ones ending with ';'), also outside of `tokenize()`.
+    CommonMark spec: numeric ones and the exact names of HTML5 entities, all
+    ending with ';'. (`html.unescape()` also accepts a known name as the prefix
+    of an unknown one: "&notit;" becomes "\xacit;".)
     """
-    saved_charref = html._charref
-    try:
-        html._charref = _markdown_charref
-        return html.unescape(string)
-    finally:
-        html._charref = saved_charref
+    if '&' not in string:
+        return string
+    return _markdown_charref.sub(_replace_charref, string)
+
+
+def _replace_charref(match):
+    name = match.group(1)
+    if name[0] == '#':
+        return html.unescape(match.group(0))
+    return html5_entities.get(name, match.group(0))
 
 
 def tokenize(string, token_types):
@@ -91,7 +98,7 @@ def make_tokens(tokens, start, end, string, fallback_token):
     prev_end = start
     for token in tokens:
         if token.start > prev_end:
-            t = fallback_token(html.unescape(string[prev_end:token.start]))
+            t = fallback_token(unescape(string[prev_end:token.start]))
             if t is not None:
                 result.append(t)
         t = token.make()
@@ -99,7 +106,7 @@ def make_tokens(tokens, start, end, string, fallback_token):
             result.append(t)
         prev_end = token.end
     if prev_end != end:
-        result.append(fallback_token(html.unescape(string[prev_end:end])))
+        result.append(fallback_token(unescape(string[prev_end:end])))
     return result
 
 
